@@ -482,13 +482,15 @@ func (self *SrcParam) format(printer *printer, modeWidth, typeWidth int) {
 	for i := 0; i < typeWidth-len(string(self.Lang)); i++ {
 		printer.mustWriteRune(' ')
 	}
-	printer.mustWriteString(` "`)
-	printer.mustWriteString(self.Path)
+	printer.mustWriteRune(' ')
+	// The path and arguments are quoted like any other string literal
+	// so that quotes and backslashes in them survive re-parsing.
+	cmd := self.Path
 	for _, arg := range self.Args {
-		printer.mustWriteRune(' ')
-		printer.mustWriteString(arg)
+		cmd += " " + arg
 	}
-	printer.mustWriteString("\",\n")
+	quoteString(printer, cmd)
+	printer.mustWriteString(",\n")
 }
 
 // Callable
